@@ -90,6 +90,13 @@ impl CipherState {
         self.n
     }
 
+    /// Verification hook: append the private state of this cipherstate to `out`.
+    #[cfg(feature = "verif-hooks")]
+    pub(crate) fn verif_dump(&self, out: &mut crate::utils::VerifDump) {
+        out.extend_from_slice(&self.n.to_le_bytes());
+        out.push(u8::from(self.has_key));
+    }
+
     pub fn set_nonce(&mut self, nonce: u64) {
         self.n = nonce;
     }
@@ -167,6 +174,12 @@ impl StatelessCipherState {
 
     pub fn encrypt(&self, nonce: u64, plaintext: &[u8], out: &mut [u8]) -> Result<usize, Error> {
         self.encrypt_ad(nonce, &[], plaintext, out)
+    }
+
+    /// Verification hook: append the private state of this cipherstate to `out`.
+    #[cfg(feature = "verif-hooks")]
+    pub(crate) fn verif_dump(&self, out: &mut crate::utils::VerifDump) {
+        out.push(u8::from(self.has_key));
     }
 
     pub fn decrypt(&self, nonce: u64, ciphertext: &[u8], out: &mut [u8]) -> Result<usize, Error> {
